@@ -6,8 +6,8 @@ From Falco Require Import Base.Res Base.SMBase Model.SM Model.Sched Proofs.SMBas
 Import ListNotations.
 
 Definition req0 : oracle * request :=
-  ((fun _ _ => ANone), mkQ 0%Z (fun _ => 0%N) false (fun _ => None) (fun _ => None) (fun _ => [])).
-Definition report0 : report := mkR [] 0 false None None true [].
+  ((fun _ _ => ANone), mkQ 0%Z (fun _ => 0%N) false (fun _ => None) (fun _ => None) (fun _ => []) (fun _ _ => None)).
+Definition report0 : report := mkR [] 0 false None None None true [].
 
 (* one request as an atomic step on the persistent state (total: C06_sm_total) *)
 Definition serve (oq : oracle * request) (p : persistent) : report * persistent :=
@@ -86,7 +86,7 @@ End Requests.
 (* witness: two requests for one cacheable URL, the second acquires the lock first: it misses and stores,
    the first one hits; the cache is left with one object that was hit once *)
 Example ex_two_requests :
-  let q := mkQ 1000%Z (fun _ => 5%N) true (fun _ => Some (true, 10000%Z)) (fun _ => None) (fun _ => []) in
+  let q := mkQ 1000%Z (fun _ => 5%N) true (fun _ => Some (true, 10000%Z)) (fun _ => None) (fun _ => []) (fun _ _ => None) in
   let reqs := [((fun _ _ => ANone), q); ((fun _ _ => ANone), q)] in
   match exec [1; 1; 1; 1; 0; 0; 0; 0] (init (map handler (map request_body reqs)) SM.init) with
   | Some c => acq c = [1; 0] /\
